@@ -28,8 +28,20 @@ pub(super) fn indent_func_name(node: FuncCall<'_>) -> Option<&str> {
         .map(|ident| ident.as_str())
 }
 
+/// The callee as written, without the white space and comments inside it (`table. header` is `table.header`).
 pub(super) fn func_name(node: FuncCall<'_>) -> EcoString {
-    node.callee().to_untyped().clone().into_text()
+    fn collect(node: &SyntaxNode, name: &mut EcoString) {
+        if node.kind().is_trivia() {
+            return;
+        }
+        name.push_str(node.text());
+        for child in node.children() {
+            collect(child, name);
+        }
+    }
+    let mut name = EcoString::new();
+    collect(node.callee().to_untyped(), &mut name);
+    name
 }
 
 /// Like `f()`, `f(x, y)`, not `f[]`
